@@ -205,7 +205,9 @@ class FlowModel:
         logger.debug("Checking batch size")
         if batch_size == 1:
             raise ValueError("Cannot use a batch size of 1!")
-        min_batch_size = int(min_fraction * batch_size)
+        # A final batch with a single sample is never valid (e.g. it breaks
+        # batch normalisation), irrespective of the fraction.
+        min_batch_size = max(int(min_fraction * batch_size), 2)
         final_batch_size = len(x) % batch_size
         if final_batch_size and (final_batch_size < min_batch_size):
             logger.debug(
